@@ -29,7 +29,7 @@ pub struct Spec {
 }
 
 impl Spec {
-    fn to_json(&self) -> Value {
+    pub fn to_json(&self) -> Value {
         json!({
             "use_double": self.use_double,
             "large_factor": self.large_factor,
@@ -40,7 +40,7 @@ impl Spec {
             "kind": self.kind,
         })
     }
-    fn from_json(v: &Value) -> Spec {
+    pub fn from_json(v: &Value) -> Spec {
         Spec {
             dabs: v["d"].as_str().unwrap().trim_start_matches('-').parse().unwrap(),
             primes: v["dabs_prime_factors"]
@@ -69,6 +69,10 @@ pub fn gen_spec(rng: &mut Rng, tier: Tier) -> Spec {
             }
         }
     } as u32;
+    gen_spec_bits(rng, bits)
+}
+
+pub fn gen_spec_bits(rng: &mut Rng, bits: u32) -> Spec {
     let mut outer = 0u64;
     loop {
         outer += 1;
@@ -525,7 +529,7 @@ fn check_group<T: FInt>(
     Judged { violations: v, lines_checked, h_counted, order_tests }
 }
 
-fn judge(spec: &Spec, reference: Option<&Group>, out: &RunOut, tier: Tier, aborted_allowed: bool, seed: u64) -> Judged {
+pub fn judge(spec: &Spec, reference: Option<&Group>, out: &RunOut, tier: Tier, aborted_allowed: bool, seed: u64) -> Judged {
     let mut j = Judged { violations: vec![], lines_checked: 0, h_counted: false, order_tests: 0 };
     let hard = out.hard_error;
     // C18 speaks about returned results only ("whenever the computation returns a result"): a run that
